@@ -123,7 +123,7 @@ def accessors(run, F):
             s = src(fn.hir)
             rows = {(frozenset(cs), l.replace('v1::', '')) for cs, l, ef in t}
             ok = any(cs == frozenset({'(end < start)'}) and 'Err(' in l for cs, l in rows) and \
-                any(cs == frozenset({'!(end < start)'}) and
+                any(cs == frozenset({'(start <= end)'}) and
                     l in ('Ok(self.slice(start, (end - start)))', 'Ok(self.slice(start, len))')
                     for cs, l in rows) and 'let len = (end - start);' in s
             run.ob('API.pass', fn, key, ok, fn.loc(), 'rows %s' % sorted((sorted(c), l[:50]) for c, l in rows))
